@@ -5,7 +5,7 @@ B := build
 CXX := g++
 RTFLAGS := -fno-pie -std=c++17 -O2 -g -fno-omit-frame-pointer -Wall -Wextra -Wno-format-truncation -I.
 # prod variant: production memory orders + explicit fences (XENIUM_TSAN undefined)
-HFLAGS_COMMON := -fno-pie -std=c++17 -O1 -g -fsanitize=thread --param tsan-instrument-func-entry-exit=0 -DNDEBUG -DXENIUM_VERIF -I$(REPO) -I. -MMD -MP -w
+HFLAGS_COMMON := -fno-pie -std=c++17 -O1 -g -fsanitize=thread -DNDEBUG -DXENIUM_VERIF -I$(REPO) -I. -MMD -MP -w
 HFLAGS_prod := $(HFLAGS_COMMON) -U__SANITIZE_THREAD__
 HFLAGS_tsanv := $(HFLAGS_COMMON)
 LIBS := -lpthread -ldl -Wl,-z,now -no-pie
